@@ -353,7 +353,7 @@ func randScript(c *Cfg, users []string) string {
 	// at least half of the failing scripts write before failing
 	switch c.Rng.Intn(6) {
 	case 0:
-		st = append(st, []string{"fail", "fail", "failx"}[c.Rng.Intn(3)])
+		st = append(st, []string{"fail", "fail", "failx", "faill:1500", "faill:1501", "faill:1502", "faill:40000", "faill:40001", "faill:40002"}[c.Rng.Intn(9)])
 	case 1:
 		st = append(st, "panic")
 	}
@@ -374,7 +374,7 @@ func genC04(c *Cfg, emit func([]string)) {
 	// sequence of 3 (thorough: 4) transactions over an alphabet of atomic bodies runs in ONE batch or
 	// task list, followed by a reader. This is where a cache layer that mishandles
 	// overwrite-then-delete, delete-then-put, failed writers or empty values shows.
-	alphabet := []string{"put:x:2", "put:x:", "del:x", "get:x", "put:x:3;fail", "del:x;get:x", "put:x:4;get:x", "del:x;panic", "put:x:5;failx"}
+	alphabet := []string{"put:x:2", "put:x:", "del:x", "get:x", "put:x:3;fail", "del:x;get:x", "put:x:4;get:x", "del:x;panic", "put:x:5;failx", "put:x:6;faill:1500", "put:x:7;faill:1501"}
 	depth := 3
 	if c.Thorough() {
 		depth = 4
